@@ -69,6 +69,11 @@ func TestVerifC04(t *testing.T) {
 		prop: "C04", mon: coreMon{windows: true, cc: true}, nQuick: 500, nThor: 6000,
 		profile: func(i int, rng *vrng) coreProfile {
 			p := defaultProfile()
+			if i%6 == 0 {
+				// parameters are re-tuned at run time (interval only; congestion control stays on): the
+				// congestion state is not a parameter
+				p.name, p.ccReconf, p.drop = "retuned-at-run-time", 6, 25
+			}
 			switch i % 3 {
 			case 1:
 				p.name, p.forge = "forging-peer", 20
